@@ -234,6 +234,13 @@ func (vfs *MemFS) createSymlink(parent *dirNode, name, link string) *symlinkNode
 	return child
 }
 
+// unlink deletes the node child, whose entry has just been removed from its parent directory.
+func (vfs *MemFS) unlink(child node) {
+	child.Lock()
+	child.delete()
+	child.Unlock()
+}
+
 // isNotExist is IsNotExist without unwrapping.
 func (vfs *MemFS) isNotExist(err error) bool {
 	return err == vfs.err.NoSuchDir || err == vfs.err.NoSuchFile
@@ -331,6 +338,7 @@ func (dn *dirNode) removeChild(name string) {
 // delete removes all information from the node.
 func (dn *dirNode) delete() {
 	dn.children = nil
+	dn.removed = true
 }
 
 // fillStatFrom returns a MemInfo (implementation of fs.FileInfo) from a dirNode dn named name.
